@@ -318,7 +318,7 @@ def rr_rules(ctx, A):
             # the field push happens in every iteration that does not leave with Err / Ok(None)
             from r_panic import cycle_without
             every = not cycle_without(rr, L[1], h, {fc['block']})
-            ctx.ob(['C01', 'C14', 'C03'], 'R-DOM', 'RR|every-field-pushed', every, 'every trip around the field loop pushes the field region (no field is skipped)', loc(fc['span']))
+            ctx.ob(['C01', 'C14', 'C03', 'C20'], 'R-DOM', 'RR|every-field-pushed', every, 'every trip around the field loop pushes the field region (no field is skipped)', loc(fc['span']))
             sty, src = loop_source(rr, L)
             # the vector's own iterator (an adapter would show up as the iterator type); the element may be a tuple or a struct
             unadapted = sty is not None and re.match(r"^(std::vec::IntoIter<|std::slice::Iter<'_, )[^<>]*(<[^<>]*>[^<>]*)*>$", sty) and not re.search(r'std::iter::', sty)
@@ -1471,12 +1471,12 @@ def type_size_rules(ctx):
     for name in ('size', 'alignment'):
         fs = [f for f in P.fns.values() if f.id == 'semantic::types::Type::' + name]
         if not fs:
-            ctx.fail_closed(['C02', 'C10'], 'R-EXPR', 'Type::%s' % name, 'function not found')
+            ctx.fail_closed(['C02', 'C10', 'C03', 'C01'], 'R-EXPR', 'Type::%s' % name, 'function not found')
             continue
         f = fs[0]
         sw = [s for s in f.switches() if s['cond'][0] == 'discr' and strip(s['cond'][1])[0] == 'arg']
         if len(sw) != 1:
-            ctx.fail_closed(['C02', 'C10'], 'R-EXPR', 'Type::%s' % name, 'expected one match on self')
+            ctx.fail_closed(['C02', 'C10', 'C03', 'C01'], 'R-EXPR', 'Type::%s' % name, 'expected one match on self')
             continue
         arms = {}
         for lab, tgt in sw[0]['edges']:
@@ -1756,6 +1756,6 @@ def plumbing(ctx):
         sw = [s_ for s_ in f.switches() if s_['cond'][0] == 'discr' and strip(s_['cond'][1])[0] == 'arg']
         okg = len(sw) == 1 and set(seen) == {'ConstPointer', 'MutPointer', 'Array', 'Unknown', 'Ident'} and all(len(v_) == 1 for v_ in seen.values())
         detg = '; '.join('%s: %s' % (k_, show(v_[0][-1])[:50] if v_ and len(v_[0]) > 1 else v_) for k_, v_ in sorted(seen.items(), key=lambda kv: str(kv[0])) if k_ is None)
-    ob(['C01', 'C02', 'C11', 'C18', 'C15', 'C05'], 'resolve_grammar_type', okg,
+    ob(['C01', 'C02', 'C11', 'C18', 'C15', 'C05', 'C20'], 'resolve_grammar_type', okg,
        'grammar types map structurally: *const→ConstPointer, *mut→MutPointer, [T; n]→Array(T, n) with n unchanged, unknown<n>→padding, names→resolve_string%s' % (
            (' (not understood: %s)' % detg) if detg else ''), f)
